@@ -200,7 +200,19 @@ func genC04(g *prng.R) c04Case {
 		if len(followed) == 1 {
 			fobj = followed[0]
 		}
+		if g.Chance(1, 8) {
+			// the Follow also names somebody without an id (it was answered
+			// all the same): that value is nobody an Accept could come from
+			fobj = append(A{M{"type": "Person", "name": "someone without id"}}, asList(fobj)...)
+			if g.Bool() {
+				l := fobj.(A)
+				l[0], l[len(l)-1] = l[len(l)-1], l[0]
+			}
+		}
 		f := M{"type": "Follow", "id": L + "/act/f1", "actor": alice(), "object": fobj}
+		if g.Chance(1, 10) {
+			f["actor"] = A{M{"type": "Person", "name": "a co-follower without id"}, alice()}
+		}
 		sc.Store[L+"/act/f1"] = withCtx(f)
 		if g.Bool() {
 			act["object"] = f
